@@ -354,16 +354,18 @@ EvFn(node, st0, ctx) ==
               xs == IF cur.t = "list" THEN cur.items ELSE <<>>
               r == IF A(2).i >= 0 /\ A(2).i < Len(xs) THEN xs[A(2).i + 1] ELSE None
           IN R(r, D, [st EXCEPT !.vars = SetVar(st.vars, v, VList(xs))])
-    [] nm \in {"stop", "fail_and_stop"} ->
+    \* stop_all / skip_all / advance_all / fail_all also signal the CsvPaths instance that runs the group (Group.tla);
+    \* on the csvpath that executes them they are stop / skip / advance / fail
+    [] nm \in {"stop", "fail_and_stop", "stop_all"} ->
           LET fire == N = 0 \/ rs[1].vote
               st1 == IF fire THEN [st EXCEPT !.stopped = TRUE] ELSE st
               st2 == IF fire /\ nm = "fail_and_stop" THEN [st1 EXCEPT !.valid = FALSE] ELSE st1
           IN R(None, D, st2)
-    [] nm = "skip" ->
+    [] nm \in {"skip", "skip_all"} ->
           LET fire == N = 0 \/ rs[1].vote
           IN R(None, D, IF fire THEN [st EXCEPT !.skip = TRUE] ELSE st)
-    [] nm = "advance" -> R(None, D, [st EXCEPT !.advance = A(1).i])
-    [] nm = "fail"    -> R(VBool(D), D, [st EXCEPT !.valid = FALSE])
+    [] nm \in {"advance", "advance_all"} -> R(None, D, [st EXCEPT !.advance = A(1).i])
+    [] nm \in {"fail", "fail_all"} -> R(VBool(D), D, [st EXCEPT !.valid = FALSE])
     [] nm = "failed"  -> R(VBool(~st.valid), ~st.valid, st)
     [] nm = "valid"   -> R(VBool(st.valid), st.valid, st)
     [] nm = "last"    -> LET b == ctx.k = ctx.endNum \/ ctx.lastScan
